@@ -272,9 +272,6 @@ package cose
 //@ spec ProtBytes(h Headers) Bytes = len(h.RawProtected) > 0 ? bytes(h.RawProtected) : enc(cv_bstr(protContent(h.Protected)))
 //@ spec UnprotBytes(h Headers) Bytes = len(h.RawUnprotected) > 0 ? bytes(h.RawUnprotected) : (len(h.Unprotected) == 0 ? byte1(160) : enc(cvof(asmap(h.Unprotected))))
 
-//@ func validateHeaderParameters
-//@   modifies frame [C18]: nothing
-
 //@ func (ProtectedHeader).MarshalCBOR
 //@   ensures fun [C02, C04, C08, C09, C10]: err == nil ==> bytes(result) == enc(cv_bstr(protContent(h))) && fresh(result) && len(result) > 0
 //@   ensures err_nil: err != nil ==> result == nil
@@ -328,13 +325,15 @@ package cose
 
 //@ spec isSignedKey(k any) Bool = k is int || k is int8 || k is int16 || k is int32 || k is int64
 //@ spec isUnsignedKey(k any) Bool = k is uint || k is uint8 || k is uint16 || k is uint32 || k is uint64
-//@ spec isIntKey(k any) Bool = isSignedKey(k) || isUnsignedKey(k)
-//@ spec intOf(k any) Int = k is int ? k.(int) : (k is int8 ? k.(int8) : (k is int16 ? k.(int16) : (k is int32 ? k.(int32) : (k is int64 ? k.(int64) :
-//@       (k is uint ? k.(uint) : (k is uint8 ? k.(uint8) : (k is uint16 ? k.(uint16) : (k is uint32 ? k.(uint32) : (k is uint64 ? k.(uint64) : 0)))))))))
+// isIntKey / intOf: the dynamic type is one of the ten Go integer types (not a named type such as Algorithm), and its value
+//@ spec isIntKey(k any) Bool = any_is_int(k)
+//@ spec intOf(k any) Int = any_int_val(k)
+//@ lemma int_kinds [C13]: forall k any :: any_is_int(k) <==> (isSignedKey(k) || isUnsignedKey(k))
 // a label in the supported data model: text, or an integer within int64
 //@ spec labelOK(k any) Bool = k is string || (isIntKey(k) && intOf(k) <= 9223372036854775807)
 // the header map has a parameter with integer label l, however the label is spelt in Go
-//@ spec has(h map[any]any, l Int) Bool = exists k any :: k in h && isIntKey(k) && intOf(k) == l
+// (has_int D l is the skolemised form of: exists k :: D[k] && isIntKey(k) && intOf(k) == l; see the two defining axioms in the prelude)
+//@ spec has(h map[any]any, l Int) Bool = has_int(mapdom(h), l)
 // every integer label of h is spelt int64 (what the decoder produces; the exclusion region of findings F3/F4/F7)
 //@ spec int64Labels(h map[any]any) Bool = forall k any :: k in h && isIntKey(k) ==> k is int64
 
@@ -559,4 +558,46 @@ package cose
 //@   requires hashable: any_hashable(label)
 //@   ensures int_iff: isIntKey(label) && labelOK(label) ==> (result <==> has(h, intOf(label)))
 //@   ensures other_iff: !(isIntKey(label) && labelOK(label)) ==> (result <==> label in h)
+//@   modifies frame [C18]: nothing
+
+// ===================================================================
+// headers.go: RFC 9052 section 3.1 rules (C13, C05, C07, C08)
+// ===================================================================
+
+//@ spec canIntV(v any) Bool = isIntKey(v)
+//@ spec canUintV(v any) Bool = isUnsignedKey(v) || (isSignedKey(v) && intOf(v) >= 0)
+// content type / typ: uint, or a non-empty type/subtype text without leading or trailing blank
+//@ spec ctOK(v any) Bool = canUintV(v) || (v is string && len(v.(string)) > 0 && v.(string)[0] != 32 && v.(string)[len(v.(string)) - 1] != 32 && str_count(v.(string), "/") == 1)
+// label e (an element of crit) names a parameter that is present in bucket h
+//@ spec present(h map[any]any, e any) Bool = (isIntKey(e) && labelOK(e)) ? has(h, intOf(e)) : (e in h)
+//@ spec critOK(v any, h map[any]any) Bool = v is []any && len(v.([]any)) > 0
+//@       && (forall i Int :: 0 <= i && i < len(v.([]any)) ==> (isIntKey(v.([]any)[i]) || v.([]any)[i] is string) && present(h, v.([]any)[i]))
+
+//@ func ensureCritical
+//@   ensures iff [C05, C07, C08, C13]: result == nil <==> critOK(value, headers)
+//@   modifies frame [C18]: nothing
+//@   loop 1 invariant bounds: 0 <= idx && idx <= len(value.([]any)) && value is []any
+//@   loop 1 invariant prefix: forall j Int :: 0 <= j && j < idx ==> (isIntKey(value.([]any)[j]) || value.([]any)[j] is string) && present(headers, value.([]any)[j])
+
+//@ spec isCsig(v any) Bool = v is *Countersignature || v is []*Countersignature
+// the rule RFC 9052 section 3.1 attaches to the parameter with integer label l and value v in bucket h
+//@ spec RuleAt(l Int, v any, h map[any]any, prot Bool) Bool =
+//@          (l == 1 ==> v is Algorithm || canIntV(v) || v is string)
+//@       && (l == 2 ==> prot && critOK(v, h))
+//@       && (l == 3 ==> ctOK(v)) && (l == 16 ==> ctOK(v))
+//@       && (l == 4 ==> v is []byte)
+//@       && (l == 5 ==> v is []byte && !has(h, 6))
+//@       && (l == 6 ==> v is []byte && !has(h, 5))
+//@       && (l == 7 ==> !prot && isCsig(v)) && (l == 11 ==> !prot && isCsig(v))
+//@       && (l == 9 ==> !prot && v is []byte) && (l == 12 ==> !prot && v is []byte)
+//@ spec Rules(h map[any]any, prot Bool) Bool = (forall k any :: k in h ==> labelOK(k) && (isIntKey(k) ==> RuleAt(intOf(k), h[k], h, prot))) && uniqueLabels(h)
+//@ spec normKey(k any) any = isIntKey(k) ? any(int64(intOf(k))) : k
+
+//@ func validateHeaderParameters
+//@   ensures iff [C05, C07, C08, C13]: result == nil <==> Rules(h, protected)
+//@   loop 1 invariant seen_ok [C13]: forall k any :: k in seen ==> labelOK(k) && (isIntKey(k) ==> RuleAt(intOf(k), h[k], h, protected))
+//@   loop 1 invariant existing_fwd [C13]: forall k any :: k in seen ==> normKey(k) in existing
+//@   loop 1 invariant existing_bwd [C13]: forall x any :: x in existing ==> (exists k any :: k in seen && k in h && labelOK(k) && normKey(k) == x)
+//@   loop 1 invariant seen_unique [C13]: forall k1 any, k2 any :: k1 in seen && k2 in seen && isIntKey(k1) && isIntKey(k2) && intOf(k1) == intOf(k2) ==> k1 == k2
+//@   loop 1 invariant seen_dom [C13]: forall k any :: k in seen ==> k in h
 //@   modifies frame [C18]: nothing
